@@ -42,6 +42,12 @@ func init() {
 			extremeArgsProbe(r)
 			return
 		}
+		if len(rp.Ops) > 0 && strings.HasPrefix(rp.Ops[0], "NULL; call with credential flavour") {
+			env := newC15Env()
+			defer env.close()
+			refusedCallsThenReload(r, env, encAuthSys(0, []byte("c"), 0, 0, nil))
+			return
+		}
 		env := newC15Env()
 		defer env.close()
 		judgeC15(r, env, []c15Stream{rp.Case})
